@@ -254,6 +254,9 @@ var pkgCounter atomic.Int64
 
 func run(t *testing.T, lane string) {
 	r := vf.Start(t, prop, lane)
+	// a case carries everything its verdict may depend on; what an earlier case
+	// left behind in the process (pools, caches) is not replayable
+	r.ConfirmFresh()
 	pid := os.Getpid()
 	rapid.Check(t, func(t *rapid.T) {
 		// fresh full names per case so every cache, including the package-level
@@ -267,9 +270,16 @@ func run(t *testing.T, lane string) {
 		nm := rapid.IntRange(1, 4).Draw(t, "nmsgs")
 		c := conCase{Shared: lane, Repeat: 1}
 		var first protoreflect.Message
+		refused := false
 		for i := 0; i < nm; i++ {
 			md := rapid.SampledFrom(s.Msgs).Draw(t, "root")
-			msg := s.MsgCtx(false).Message(t, md, 0, "m.")
+			// a quarter of the messages hold values the encoder refuses (NaN, dates
+			// out of range): an operation that fails next to ones that succeed
+			extended := rapid.IntRange(0, 3).Draw(t, "extended") == 0
+			msg := s.MsgCtx(extended).Message(t, md, 0, "m.")
+			if extended {
+				refused = true
+			}
 			if first == nil {
 				first = msg
 			}
@@ -321,6 +331,9 @@ func run(t *testing.T, lane string) {
 		}
 		if res.Classes["recursive-ref"] {
 			cls = append(cls, "recursive-types")
+		}
+		if refused {
+			cls = append(cls, "message-outside-encoder-domain")
 		}
 		r.Eval(nt2, vf.Hash(c.Roots, c.Msgs, c.Threads), cls...)
 		if nt2 && r.WantSample() {
